@@ -52,7 +52,10 @@ DataFields   == Fields                       \* "pl" is carried besides the sche
 UniqueF      == {f \in Fields : hdr.schema[f].uq = 1}
 IndexedF     == {f \in Fields : hdr.schema[f].ix = 1}
 CaseF        == {f \in Fields : hdr.schema[f].cn # "none"}
-CanonV(f, c) == IF f \in CaseF THEN CanonCode(c) ELSE c
+\* canonical code of a value of a case-constrained field: variant 0 of its class - or, for a plain string field that a
+\* custom schema puts under a case constraint, the table carried by the header
+CanonV(f, c) == IF "canon" \in DOMAIN hdr /\ f \in DOMAIN hdr.canon THEN hdr.canon[f][c + 1]
+                ELSE IF f \in CaseF THEN CanonCode(c) ELSE c
 
 \* the driver's own Transform hook, as a table  field -> <<from, to>> pairs
 UserT(o) == [f \in DOMAIN o |->
@@ -154,6 +157,16 @@ Eval == /\ e.ev = "eval" /\ Common
         /\ hands' = [h \in DOMAIN hands \cup {e.h} |-> IF h = e.h THEN [q |-> e.q, c |-> e.c, len |-> e.len, S |-> store, gone |-> {}] ELSE hands[h]]
         /\ UNCHANGED <<store, hdr, lastObs, reopened, wpre, wev, unfl, slept>> /\ due' = FALSE
 
+\* a kept search value refined (And / Or / Operation) into a new one.  The new one is judged like an evaluated chain when
+\* nothing was written since its parent was evaluated (otherwise it mixes two states of the collection: not judged);
+\* the parent stays what it was - that is judged when it is collected later (Conf_C20, Conf_C13)
+Derive == /\ e.ev = "derive" /\ Common
+          /\ LET fresh == e.from \in DOMAIN hands /\ hands[e.from].c = "ok" /\ hands[e.from].S = store /\ hands[e.from].gone = {}
+             IN hands' = [h \in DOMAIN hands \cup {e.h} |->
+                            IF h = e.h THEN [q |-> e.q, c |-> IF fresh THEN e.c ELSE "unjudged", len |-> e.len, S |-> store, gone |-> {}]
+                            ELSE hands[h]]
+          /\ UNCHANGED <<store, hdr, lastObs, reopened, wpre, wev, unfl, slept>> /\ due' = FALSE
+
 Collect == /\ e.ev = "collect" /\ Common /\ Pass
 
 Other == /\ e.ev \in {"end", "panic", "hang", "mutate", "args", "note", "crash", "fault", "corrupt", "shape", "names", "xput", "xdel", "xflush"} /\ Common /\ Pass
@@ -205,7 +218,7 @@ AfterDamage(S, d) ==
 DamageEv == /\ e.ev = "damage" /\ Common
             /\ Write(AfterDamage(store, e))
 
-Next == l <= Len(Trace) /\ (Reset \/ Hdr \/ Put \/ Many \/ Del \/ DelAll \/ DelSearch \/ Reopen \/ Obs \/ Eval \/ Collect \/ Other \/ DamageEv \/ FlushEv \/ FlushOneEv \/ DropEv \/ TickEv \/ SwitchEv)
+Next == l <= Len(Trace) /\ (Reset \/ Hdr \/ Put \/ Many \/ Del \/ DelAll \/ DelSearch \/ Reopen \/ Obs \/ Eval \/ Derive \/ Collect \/ Other \/ DamageEv \/ FlushEv \/ FlushOneEv \/ DropEv \/ TickEv \/ SwitchEv)
 
 Spec == Init /\ [][Next]_vars
 
@@ -431,6 +444,7 @@ Conf_C13 ==
   At =>
   /\ (E.ev = "obs" /\ E.all_c = "ok") => OrderOK(E, AllMap(E))
   /\ (E.ev = "eval" /\ WellFormedQ(E.q)) => (E.c = "ok" /\ E.len = Cardinality(MatchesQ(store, E.q)))
+  /\ (E.ev = "derive" /\ WellFormedQ(E.q) /\ hands[E.h].c # "unjudged") => (E.c = "ok" /\ E.len = Cardinality(MatchesQ(store, E.q)))
   /\ (E.ev = "collect" /\ E.h \in DOMAIN hands) =>
         LET H == hands[E.h] IN
         (H.S = store /\ H.gone = {} /\ WellFormedQ(H.q) /\ H.c = "ok") => CollectOK(E, H)
@@ -602,8 +616,8 @@ CrashOK(E_, Sm, Sp) ==
      /\ (LoadReports(E_) \/ o1.control = "corrupted") \/ AgreeD(o1, F, Sm)    \* detected, or index and files agree
      /\ E_.repair = "ok" /\ o2.control = "ok"
      /\ FM(o2) = F /\ Readable(o2)                                          \* Repair touches no object file
-     /\ AgreeD(o2, F, Sm)
-     /\ E_.close = "ok" /\ E_.load3 = "ok" /\ o3.control = "ok" /\ AgreeD(o3, F, Sm)
+     /\ Agree(o2, F)                                                        \* Repair rebuilds every entry from its file: exact agreement, no deviation
+     /\ E_.close = "ok" /\ E_.load3 = "ok" /\ o3.control = "ok" /\ Agree(o3, F)
 \* C05 with asynchronous writes.  "Every acknowledged operation is reflected" is promised for synchronous mode
 \* only; everything else stands: nothing unreadable, every object file is entirely ONE version the collection
 \* accepted for that object (and belongs to an object stored before or after the interrupted call), the first load /
@@ -620,10 +634,17 @@ CrashAsyncOK(E_, Sm, Sp) ==
      /\ \A u \in DOMAIN F : F[u] \in VersionsAt(l - 1, u) /\ (u \in DOMAIN Sm \/ u \in DOMAIN Sp)
      /\ LoadFine(E_)
      /\ (LoadReports(E_) \/ o1.control = "corrupted") \/ AgreeD(o1, F, Sm)
-     /\ E_.repair = "ok" /\ o2.control = "ok"
-     /\ FM(o2) = F /\ Readable(o2)
-     /\ AgreeD(o2, F, Sm)
-     /\ E_.close = "ok" /\ E_.load3 = "ok" /\ o3.control = "ok" /\ AgreeD(o3, F, Sm)
+     /\ FM(o2) = F /\ Readable(o2)                                          \* Repair touches no object file
+     /\ \/ /\ E_.repair = "ok" /\ o2.control = "ok"
+           /\ Agree(o2, F)
+           /\ E_.close = "ok" /\ E_.load3 = "ok" /\ o3.control = "ok" /\ Agree(o3, F)
+        \* Known finding (deviation AsyncUniqueClash, K04): pending objects are flushed one file at a time.  When a unique
+        \* value has moved from one object to another since the last flush, a crash after the file of the object that TOOK
+        \* the value and before the file of the object that GAVE it up leaves two object files holding the same unique
+        \* value (each one entirely an accepted version): no index can describe them, Repair fails with the uniqueness error.
+        \/ /\ "AsyncUniqueClash" \in Dev
+           /\ \E u, v \in DOMAIN F, f \in UniqueF : u # v /\ F[u][f] = F[v][f]
+           /\ E_.repair = "unique"
 Conf_C05 ==
   At => (E.ev = "crash" => IF AsyncOn THEN CrashAsyncOK(E, wpre, store) ELSE CrashOK(E, wpre, store))
 
@@ -682,7 +703,7 @@ FaultOK(E_, Sm) ==
       devshape == /\ "CommitFault" \in Dev
                   /\ Readable(o1) /\ 0 \notin DOMAIN FM(o1) /\ OldOrNew(FM(o1), Pre, Sp)
                   /\ LoadFine(E_) /\ E_.repair = "ok" /\ o2.control = "ok" /\ FM(o2) = FM(o1)
-                  /\ AgreeStale(o2, FM(o2), Pre) /\ E_.load3 = "ok" /\ o3.control = "ok" /\ AgreeStale(o3, FM(o2), Pre)
+                  /\ Agree(o2, FM(o2)) /\ E_.load3 = "ok" /\ o3.control = "ok" /\ Agree(o3, FM(o2))
   IN /\ E_.c # "panic" /\ "panic" \notin DOMAIN o0 /\ "panic" \notin DOMAIN o1
      /\ silent \/ (noticed /\ restored) \/ devshape
 Conf_C06F ==
@@ -799,7 +820,7 @@ Conf_C16 ==
   /\ (E.ev = "many") => (\A i \in 1..E.n : ("o" \in DOMAIN E.batch[i] /\ "same_as" \notin DOMAIN E.batch[i]) =>
                           (\A f \in CaseF : E.batch[i].after[f] = CanonV(f, UserT(E.batch[i].o)[f])))
   /\ (E.ev = "obs" /\ E.all_c = "ok") =>
-       /\ \A s \in DOMAIN AllMap(E), f \in CaseF : AllMap(E)[s][f] = CanonCode(AllMap(E)[s][f])
+       /\ \A s \in DOMAIN AllMap(E), f \in CaseF : AllMap(E)[s][f] = CanonV(f, AllMap(E)[s][f])
        /\ CaseQueriesOK(E, AllMap(E))
   /\ (E.ev = "put" /\ Valid(Stored(E.o))) => ((E.c = "unique") <=> Conflict(pstore, E.slot, Stored(E.o)))
 =============================================================================
